@@ -125,6 +125,57 @@ func c04Check(cs c04Case) (kind, detail string) {
 			return "undef", ref.Undef
 		}
 		return "", ""
+	case "anchored", "anchored-outside":
+		// operands that hold anchors, aliases and merge keys (documents written by hand): evaluating the merge, in either
+		// direction, must leave the node graph of the document as it was - whatever the result is
+		docs, derr, dpan := impl.DecodeYAML(cs.Docs[0])
+		if derr != nil || dpan != nil || len(docs) != 1 {
+			return "undef", "hand-written document does not decode"
+		}
+		root := docs[0]
+		before := impl.Dump(true, root)
+		for _, expr := range []string{".x *" + cs.Flags + " .y", ".y *" + cs.Flags + " .x", "(.x *" + cs.Flags + " .y) as $m | .", ". *" + cs.Flags + " {\"x\": .y}"} {
+			parsed, err, pan := impl.Parse(expr)
+			if err != nil || pan != nil {
+				return "parse-error", fmt.Sprintf("%s: %v %v", expr, err, pan)
+			}
+			_, _, epan := impl.Eval(parsed, root)
+			if epan != nil {
+				return "panic", fmt.Sprintf("%s: %v", expr, epan)
+			}
+			if after := impl.Dump(true, root); after != before {
+				return "operand-modified", fmt.Sprintf("evaluating %s changed the node graph of the document:\n%s", expr, firstDiff(before, after))
+			}
+		}
+		// frame: what the right operand does not mention reads in the result as it reads in the left operand
+		// (documents whose sharing is by merge key only: an alias *is* the anchored node, so writing one of the two writes the other)
+		for _, dir := range [][2]string{{"x", "y"}, {"y", "x"}} {
+			if !strings.Contains(cs.Docs[0], "<<:") {
+				break
+			}
+			l, r := dir[0], dir[1]
+			probe, _, _ := impl.Parse(fmt.Sprintf("(.%s | keys) - (.%s | keys) | .[]", l, r))
+			ks, kerr, kpan := impl.Eval(probe, root)
+			if kerr != nil || kpan != nil {
+				continue
+			}
+			for _, k := range ks {
+				e := fmt.Sprintf("[(.%s *%s .%s) | .[%q], .%s[%q]]", l, cs.Flags, r, k.Value, l, k.Value)
+				parsed, perr, ppan := impl.Parse(e)
+				if perr != nil || ppan != nil {
+					continue
+				}
+				res, eerr, epan := impl.Eval(parsed, root)
+				if eerr != nil || epan != nil || len(res) != 1 {
+					continue
+				}
+				v := impl.ToV(res[0])
+				if len(v.Vals) == 2 && v.Vals[0].String() != v.Vals[1].String() {
+					return "frame", fmt.Sprintf("key %q of .%s is not mentioned by .%s, yet (.%s *%s .%s) reads %s there and .%s reads %s", k.Value, l, r, l, cs.Flags, r, v.Vals[0].String(), l, v.Vals[1].String())
+				}
+			}
+		}
+		return "", ""
 	case "reduce":
 		// N documents evaluated together: . as $i ireduce ({}; . * $i)  ==  left fold of the binary merge from {}
 		expr := ". as $i ireduce ({}; . *" + cs.Flags + " $i)"
@@ -224,7 +275,7 @@ func c04Run(c *fw.Ctx) error {
 			maps = append(maps, fromJSONText(h))
 		}
 	}
-	c.Res.Bound = fmt.Sprintf("all ordered pairs of %d maps (<= %d nodes, depth <= 3, keys a b c, leaves null 1 \"s\" and sequences) x 16 flag subsets (binary form on operands under keys, root form on whole documents (literal right operand; two documents evaluated together; quick: maps of <= 2 nodes and the hand-written deeper shapes), operand immutability, identities); reduce form: all pairs and triples of %d maps (<= %d nodes) x 16 flags", len(maps), n, len(small), sn)
+	c.Res.Bound = fmt.Sprintf("all ordered pairs of %d maps (<= %d nodes, depth <= 3, keys a b c, leaves null 1 \"s\" and sequences) x 16 flag subsets (binary form on operands under keys, root form on whole documents (literal right operand; two documents evaluated together; quick: maps of <= 2 nodes and the hand-written deeper shapes), operand immutability, identities); 7 hand-written documents whose operands hold anchors, aliases and merge keys x 16 flag subsets x 4 expressions (node graph unchanged; keys the other operand does not mention read the same in the result); reduce form: all pairs and triples of %d maps (<= %d nodes) x 16 flags", len(maps), n, len(small), sn)
 	var idx int64
 	emit := func(cs c04Case, order int64) {
 		kind, detail := c04Check(cs)
@@ -267,6 +318,28 @@ func c04Run(c *fw.Ctx) error {
 			for _, f := range c04Flags {
 				emit(c04Case{"identity", f, []string{a.JSON()}}, int64(a.Size())*1e6+int64(i))
 			}
+		}
+	}
+	for hi, h := range []string{
+		"x: {base: &b {p: 1, r: 5}, child: {<<: *b, q: 2}}\ny: {child: {p: 9, r: 6, s: 7}}\n",
+		"x: &x {p: 1, n: {k: 1}}\ny: {<<: *x, q: 2, n: {k: 2, j: 3}}\n",
+		"x: {a: &s [1, 2], b: *s}\ny: {a: [0], b: [3]}\n",
+		"x: {a: &m {k: 1}, b: *m, c: {d: *m}}\ny: {b: {k: 2, n: 3}, c: {d: {k: 4}}}\n",
+		"x: {l: [&e {k: 1}, *e]}\ny: {l: [{k: 2}, {j: 3}]}\n",
+		// the anchor lies outside the operand
+		"m: &m {k: 1}\nx: {b: *m}\ny: {b: {k: 2, n: 3}}\n",
+		"s: &s [1, 2]\nx: {b: *s}\ny: {b: [3]}\n",
+	} {
+		idx++
+		if !c.Mine(idx) {
+			continue
+		}
+		form := "anchored"
+		if strings.HasPrefix(h, "m:") || strings.HasPrefix(h, "s:") {
+			form = "anchored-outside"
+		}
+		for _, f := range c04Flags {
+			emit(c04Case{form, f, []string{h}}, 9e6+int64(hi))
 		}
 	}
 	for i, a := range small {
